@@ -13,7 +13,7 @@ p = subprocess.run(['cargo', 'test', '--workspace', '--no-fail-fast', '--offline
 cur = None
 passed, failed = set(), set()
 for line in p.stdout.splitlines():
-    m = re.match(r'\s*Running (unittests )?(\S+) \(target/\S+/deps/([A-Za-z0-9_]+)-[0-9a-f]+\)', line)
+    m = re.match(r'\s*Running (unittests )?(\S+) \(\S*/deps/([A-Za-z0-9_]+)-[0-9a-f]+\)', line)
     if m:
         unit, path, crate = m.group(1), m.group(2), m.group(3)
         if unit:
